@@ -1,5 +1,7 @@
 package main
 
+import "fmt"
+
 func profileByName(name string) Profile {
 	p := baseProfile()
 	p.Name = name
@@ -36,6 +38,7 @@ func profileByName(name string) Profile {
 		p.Types = []int{0, 1, 2}
 	case "faults":
 		p.PFault, p.InvokeFaults, p.PCallback = 0.3, true, 0.4
+		p.PDigErr, p.POptional = 0.25, 0.35
 		p.PGap, p.PBackEdge, p.PInvalid = 0.03, 0.03, 0.02
 		p.Invokes = [2]int{4, 10}
 	case "reentrant":
@@ -51,6 +54,7 @@ func profileByName(name string) Profile {
 		p.Invokes = [2]int{2, 5}
 	case "faultsdecor":
 		p.PFault, p.InvokeFaults, p.PCallback = 0.3, true, 0.4
+		p.PDigErr, p.POptional = 0.25, 0.35
 		p.PDecorate, p.PGap, p.PBackEdge, p.PInvalid = 0.7, 0.03, 0.03, 0.02
 		p.Invokes = [2]int{4, 10}
 	case "rejects":
@@ -69,6 +73,7 @@ func profileByName(name string) Profile {
 		p.PInfo, p.PNested, p.PAs, p.PVariadic, p.PInvalid, p.PDup = 0.9, 0.6, 0.2, 0.3, 0.15, 0.1
 	case "callbacks":
 		p.PCallback, p.PFault, p.InvokeFaults, p.PDecorate = 0.7, 0.3, true, 0.4
+		p.PDigErr = 0.2
 		p.PGap = 0.1
 		p.Invokes = [2]int{4, 10}
 	case "viz":
@@ -136,6 +141,39 @@ func jobsFor(prop, tier string) []JobSpec {
 	return extraJobs(prop, tier)
 }
 
+// tinyJobs: the bounded-exhaustive histories (tiny.go) added to a property's jobs.
+func tinyJobs(prop, tier string) []JobSpec {
+	q := tier == "quick"
+	switch prop {
+	case "C01", "C03", "C12":
+		if q {
+			return []JobSpec{{"tinysamp", 15000}}
+		}
+		return []JobSpec{{"tiny", tinyTotal(4)}}
+	case "C02", "C04", "C05", "C08", "C09", "C10", "C11":
+		if q {
+			return []JobSpec{{"tinysamp", 15000}}
+		}
+		return []JobSpec{{"tiny", tinyTotal(3)}, {"tinysamp", 800000}}
+	case "C07", "C13", "C20":
+		if q {
+			return []JobSpec{{"tinyfaultsamp", 15000}}
+		}
+		return []JobSpec{{"tinyfault", tinyFaultTotal()}}
+	case "C06", "C16", "C17":
+		k := map[string]string{"C06": ":c06", "C16": ":c16", "C17": ":c17"}[prop]
+		if q {
+			return []JobSpec{{"difftinysamp" + k, 15000}}
+		}
+		return []JobSpec{{"difftiny" + k, tinyTotal(3)}, {"difftinysamp" + k, 800000}}
+	}
+	return nil
+}
+
+func allJobsFor(prop, tier string) []JobSpec {
+	return append(jobsFor(prop, tier), tinyJobs(prop, tier)...)
+}
+
 func levelFor(prop string) string {
 	switch prop {
 	case "C07", "C13", "C20":
@@ -152,13 +190,27 @@ func floorFor(prop, tier string) int {
 }
 
 func exhaustiveFor(prop, tier string) string {
+	tiny := ""
+	if tier != "quick" {
+		alpha := fmt.Sprintf("the %d-call alphabet of tiny.go (9 constructor, 4 decorator and 4 invoke signatures over two types and one value group, placed in a root or child scope, with and without Export), child scope created first or just before its first use, each followed by invoking every key from both scopes", len(tinyAlphabet))
+		switch prop {
+		case "C01", "C03", "C12":
+			tiny = fmt.Sprintf("every history of at most 4 API calls over %s (%d histories)", alpha, tinyTotal(4))
+		case "C02", "C04", "C05", "C08", "C09", "C10", "C11":
+			tiny = fmt.Sprintf("every history of at most 3 API calls over %s (%d histories)", alpha, tinyTotal(3))
+		case "C07", "C13", "C20":
+			tiny = fmt.Sprintf("every history of at most 3 API calls over %s, times every single fault (call position x {error, panic} x {first execution, every execution}), followed by two retry rounds (%d cases)", alpha, tinyFaultTotal())
+		case "C06", "C16", "C17":
+			tiny = fmt.Sprintf("every history of at most 3 API calls over %s, each run as a differential pair (%d pairs)", alpha, tinyTotal(3))
+		}
+	}
 	if prop == "C05" {
 		if tier == "quick" {
 			return "every digraph with at most 5 nodes (33.6 million, self-loops included) through the real cycle search"
 		}
-		return "every digraph with at most 5 nodes (33.6 million, self-loops included) through the real cycle search; every dig program with at most 3 constructors over the listed scope trees, export flags, orders and edge encodings"
+		return "every digraph with at most 5 nodes (33.6 million, self-loops included) through the real cycle search; every dig program with at most 3 constructors over the listed scope trees, export flags, orders and edge encodings; " + tiny
 	}
-	return ""
+	return tiny
 }
 
 func ruleText(prop string) string {
